@@ -21,6 +21,7 @@ import (
 	"sync"
 	"testing"
 	"reflect"
+	"runtime/debug"
 	"testing/synctest"
 	"time"
 	"unsafe"
@@ -108,6 +109,7 @@ type stepOut struct {
 	After    int64             `json:"requeue_after"`
 	Err      string            `json:"err,omitempty"`
 	Panic    string            `json:"panic,omitempty"`
+	Stack    string            `json:"stack,omitempty"`
 	Stopped  bool              `json:"stopped,omitempty"`
 	CmdError string            `json:"cmd_error,omitempty"`
 	BoPre    []boEntry         `json:"backoff_pre,omitempty"`
@@ -650,6 +652,11 @@ func (w *world) runOp(op opSpec) (so stepOut) {
 						return
 					}
 					so.Panic = fmt.Sprint(r)
+					st := string(debug.Stack())
+					if len(st) > 6000 {
+						st = st[:6000]
+					}
+					so.Stack = st
 				}
 			}()
 			if op.Op == "cmd" {
